@@ -76,12 +76,13 @@ class Ctx:
         self.decided: dict[int, tuple] = {}
         self.notes: dict = {}
         self.base_assumptions: list[z3.BoolRef] = []
+        self.first_path = True
 
     # ---- symbols -------------------------------------------------------------------------
     def sym(self, name: str, lo: int = None, hi: int = None) -> 'SymInt':
         """Declare (idempotently) a symbolic integer with optional inclusive bounds."""
         if name not in self.symbols:
-            if self.kept != 0 or self.trail:
+            if self.kept != 0 or self.trail or not self.first_path:
                 raise HarnessError(f'symbol {name} declared after the first branch')
             v = z3.BitVec(name, W)
             self.symbols[name] = v
@@ -92,6 +93,8 @@ class Ctx:
         return SymInt(self.symbols[name])
 
     def assume_base(self, cond) -> None:
+        if not self.first_path:
+            return                      # already part of the solver's base level
         if self.kept != 0:
             raise HarnessError('base assumption added after the first branch')
         if isinstance(cond, SymBool):
@@ -194,6 +197,7 @@ class Ctx:
 
     def backtrack(self) -> bool:
         """Move to the next unexplored path; False when the tree is exhausted."""
+        self.first_path = False
         while self.trail:
             idx = len(self.trail) - 1
             while self.kept > idx:
@@ -876,7 +880,7 @@ class ShapeResult:
 
 def explore(shape_id, run, judge, *, max_paths=2000, solver_timeout_ms=20000, max_decisions=4000,
             path_wall_s=60.0, wall_budget_s=None, max_violations=8, check_overflow=True,
-            known_classes=None, on_model=None, profile=False,
+            known_classes=None, on_model=None, profile=False, witnesses_per_class=1,
             outcome_class=lambda out: str(out[0]) if isinstance(out, tuple) else str(getattr(out, 'kind', out))
             ) -> ShapeResult:
     """run(ctx) -> outcome ;  judge(ctx, outcome) -> list[(name, z3 Bool that must hold)].
@@ -906,12 +910,14 @@ def explore(shape_id, run, judge, *, max_paths=2000, solver_timeout_ms=20000, ma
                 res.outcomes[cls] = res.outcomes.get(cls, 0) + 1
                 obls = judge(ctx, out)
                 no_ovf = z3.And(*ctx.obligations) if ctx.obligations else z3.BoolVal(True)
-                if cls not in res.witnesses:
+                nwit = sum(1 for k in res.witnesses if k.split('#')[0] == cls)
+                if nwit < witnesses_per_class and (nwit == 0 or res.paths % 7 == 3):
                     if ctx._check(no_ovf):
                         wm = model_to_dict(ctx, ctx.solver.model())
-                        res.witnesses[cls] = wm
+                        wkey = cls if nwit == 0 else f'{cls}#{nwit}'
+                        res.witnesses[wkey] = wm
                         if on_model is not None:
-                            on_model(ctx, out, wm, ('w', cls))
+                            on_model(ctx, out, wm, ('w', wkey))
                 for name, prop in obls:
                     res.obligations += 1
                     if isinstance(prop, SymBool):
